@@ -44,6 +44,25 @@ class Source:
         return ev
 
 
+class QueueSource:
+    """a live source: events arrive on a queue while the consumer waits; END closes it"""
+    END = object()
+
+    def __init__(self, queue):
+        self.queue = queue
+        self.advanced = 0
+
+    def __aiter__(self):
+        return self
+
+    async def __anext__(self):
+        self.advanced += 1
+        ev = await self.queue.get()
+        if ev is QueueSource.END:
+            raise StopAsyncIteration
+        return ev
+
+
 class Reiterable:
     """an async ITERABLE that is not its own iterator: every __aiter__() starts a fresh pass over the events (the response stream must take one iterator, once)"""
 
@@ -81,6 +100,10 @@ def make_schema(sources, async_resolver, with_resolver=True):
                     raise RuntimeError("source cannot be created")
                 if ctx.get("reiterable"):
                     return Reiterable(ctx["events"], ctx["delays"], sources)
+                if ctx.get("queue") is not None:
+                    src = QueueSource(ctx["queue"])
+                    sources.append(src)
+                    return src
                 src = Source(ctx["events"], ctx["delays"])
                 sources.append(src)
                 return src
@@ -229,6 +252,50 @@ def check(tier, seed):
                 if H.lib_errors(got[k][1]) != exp[2]:
                     run.violation("subscribe:errors-belong-to-their-event", "result for event %d carries errors %r; that event alone produces %r"
                                   % (idx, H.lib_errors(got[k][1]), exp[2]), dict(w, event_index=idx), True)
+    # a consumer that POLLS a live source: it waits for the next result with a timeout, and when nothing arrives in time the wait is cancelled and tried again later.
+    # A cancelled wait loses nothing and ends nothing: every event that arrives afterwards is still delivered, in order, and the stream ends when the source ends
+    for events in ([{"ping": person(1), "tick": 1}, {"ping": person(2, bad=True), "tick": 2}, {"ping": person(3), "tick": 3}], [{"ping": person(1), "tick": 1}], []):
+        query = "subscription { ping { name age } }"
+        schema = make_schema([], False)
+        loop = asyncio.new_event_loop()
+        n += 1
+        try:
+            asyncio.set_event_loop(loop)
+
+            async def go():
+                queue = asyncio.Queue()
+                stream = await subscribe(schema, parse(query), context_value={"events": [], "delays": [0], "queue": queue}, runtime=AsyncIORuntime(loop=loop))
+                it = stream.__aiter__()
+                feed = list(events) + [QueueSource.END]
+                out, idle, limit = [], 0, len(feed) + 4
+                while idle < limit:
+                    try:
+                        out.append(await asyncio.wait_for(it.__anext__(), 0.02))
+                    except asyncio.TimeoutError:
+                        idle += 1
+                        if feed:
+                            queue.put_nowait(feed.pop(0))
+                    except StopAsyncIteration:
+                        return out, True
+                return out, False
+            got, ended = loop.run_until_complete(go())
+        except Exception as e:
+            got, ended = e, False
+        finally:
+            asyncio.set_event_loop(None)
+            loop.close()
+        w = {"query": query, "events": len(events), "consumer": "asyncio.wait_for(stream.__anext__(), timeout), events fed after each timeout"}
+        if isinstance(got, Exception):
+            run.violation("subscribe:stream-completes", "polling the response stream raised %r" % (got,), w, True)
+        elif len(got) != len(events) or not ended:
+            run.violation("subscribe:one-result-per-event", "%d events arrived one by one after idle timeouts; %d results were delivered and the stream %s" % (
+                len(events), len(got), "ended" if ended else "did not end with the source"), w, True)
+        else:
+            for k, (ev, res) in enumerate(zip(events, got)):
+                exp = H.reference(ref_schema, query, None, {"__fn__": _name_behaviour}, root=ev)
+                if H.plain(res.data) != exp[1] or H.lib_errors(res) != exp[2]:
+                    run.violation("subscribe:kth-result-is-the-kth-event", "polled event %d: %r / %r, expected %r / %r" % (k, H.plain(res.data), H.lib_errors(res), exp[1], exp[2]), dict(w, event_index=k), True)
+                    break
     # refusals, before any event is consumed
     cases = [
         ("non-subscription-operation", "{ ok }", AsyncIORuntime, True, RuntimeError),
